@@ -35,6 +35,7 @@ func defC03() *ph.Def {
 		},
 		Cmds: []*ph.CmdDef{
 			{Name: "c", Opts: []ph.OptDef{{Name: "d", Kind: ph.Bool}}, Cmds: []*ph.CmdDef{{Name: "e"}}},
+			{Name: "w", Unset: true, Unknown: 3}, // wrapper: inherits no option, passes everything through
 		},
 	}}
 }
@@ -78,9 +79,9 @@ func init() {
 	parserJudges["C03"] = judgeC03
 	register(&Check{
 		ID:        "C03",
-		QuickSecs: 120, ThoroSecs: 1200,
+		QuickSecs: 300, ThoroSecs: 1200,
 		Rule: "input-space exploration of the real parser: every argv of length <= L over a 21-token alphabet (positionals, empty string, lonesome dash, terminator, known/unknown long, short and bundled options, attached and detached values, multi-value string / int / map options with optional further values, command names) " +
-			"in all 18 mode x unknown-mode x require-order configurations plus 18 in which the command sets a different unknown-mode than the root; remaining compared (i) model-free as a sub-sequence of the input and (ii) with the reference model; states = argv prefixes visited, transitions = token appends, " +
+			"in all 18 mode x unknown-mode x require-order configurations plus 36 in which the command, or only its sub-command, sets a different unknown-mode than the root; remaining compared (i) model-free as a sub-sequence of the input and (ii) with the reference model; states = argv prefixes visited, transitions = token appends, " +
 			"distinct_nontrivial = distinct (configuration, argv) cases inside the specified territory (every enumerated case is distinct by construction)",
 		Assume: []string{"tokens outside the alphabet and argv longer than L are not covered", "cases in the closed list of unspecified zones (DESIGN.md section 3) are only checked model-free"},
 		Run: func(c *RunCtx) {
@@ -92,7 +93,7 @@ func init() {
 			// options only the command knows, given before the command name, alone and bundled with an unknown letter;
 			// the help option (HelpCommand) in the middle of a command line; dashes directly followed by `=`;
 			// a bundle whose valued letter is not the last one
-			ext := []string{"-dz", "--d", "-zd", "--help", "-=5", "--=x", "-sa", "-sz"}
+			ext := []string{"-dz", "--d", "-zd", "--help", "-=5", "--=x", "-sa", "-sz", "w"}
 			defs := configs(defC03, []bool{false, true})
 			// the command sets an unknown-mode of its own (SetUnknownMode after NewCommand)
 			for _, d := range configs(defC03, []bool{false}) {
@@ -104,9 +105,19 @@ func init() {
 					root := d.Root
 					kid := *d.Root.Cmds[0]
 					kid.Unknown = cu + 1
-					root.Cmds = []*ph.CmdDef{&kid}
+					root.Cmds = []*ph.CmdDef{&kid, d.Root.Cmds[1]}
 					d2.Root = root
 					defs = append(defs, &d2)
+					// ... or only the sub-command two levels down does
+					d3 := *d
+					root3 := d.Root
+					kid3 := *d.Root.Cmds[0]
+					sub3 := *kid3.Cmds[0]
+					sub3.Unknown = cu + 1
+					kid3.Cmds = []*ph.CmdDef{&sub3}
+					root3.Cmds = []*ph.CmdDef{&kid3, d.Root.Cmds[1]}
+					d3.Root = root3
+					defs = append(defs, &d3)
 				}
 			}
 			c.Res.Bounds = map[string]any{"L": depth, "alphabet": alpha, "alphabet_extension_for_argv_shorter_than_L": ext, "configurations": len(defs)}
